@@ -119,6 +119,9 @@ impl SyntaxPattern {
                                     for (var, multi_match) in multi_matches_substitutions {
                                         substitutions.get_mut(&var).unwrap().1.push(multi_match.0);
                                     }
+                                } else {
+                                    // an item that does not match the pattern under the ellipsis
+                                    return Ok(false);
                                 }
                                 if Self::match_datum_stream(
                                     pattern_index,
@@ -243,7 +246,7 @@ impl SyntaxPattern {
                         &DatumBody::Symbol(datum_symbol) if datum_symbol == pattern_symbol )
                 }
             }
-            (SyntaxPatternBody::Primitive(_), DatumBody::Primitive(_)) => true,
+            (SyntaxPatternBody::Primitive(pattern), DatumBody::Primitive(datum)) => pattern == datum,
             _ => false,
         };
 
